@@ -40,10 +40,25 @@ def special_documents():
     #  - "defined multiple times with different content" - and outside ordinary content: not generated)
     out.append(("two_links_to_one_url_in_a_reference", "w1<ref>[http://x.com w2 w3] w4 [http://x.com w5 w6]</ref>.\n"))
     out.append(("lists_in_neighbouring_cells", "{|\n|-\n|\n* w1\n* w2\n* w3\n* w4\n* w5\n* w6\n|\n* w7\n* w8\n|}\n"))
+    out.append(("one_reference_name_in_two_groups", 'w1<ref group="n" name="a">w2 w3</ref> w4<ref name="a">w5 w6</ref> w7<ref group="n" name="a"/> w8<ref name="a"/>.\n'))
+    out.append(("caption_of_a_table_with_empty_rows", "w0\n\n{|\n|+ w1 w2\n|-\n| || \n|-\n| || \n|}\n\nw3\n"))
+    out.append(("caption_of_a_table_with_empty_rows", "{|\n|+ w1 w2\n|-\n| w3 || w4\n|-\n| || \n|}\n"))
     out.append(("same_url_in_two_references", "w1<ref>[http://x.com w2 w3]</ref> w4<ref>[http://x.com w5 w6] w7</ref> w8.\n"))
     out.append(("indented_line_inside_a_paragraph", "== w1 ==\nw2 w3\n: w4 w5 ''w6''\nw7 w8\n\nw9\n"))
     out.append(("equal_indented_lines_in_one_paragraph", "== w1 ==\nw2 w3\n: w4 w5\nw6 w7\n: w4 w5\nw8 w9\n\nw10 w11\n"))
     out.append(("caption_of_a_single_cell_table", "w1\n\n{|\n|+ w2 w3\n|-\n| w4 w5\n|}\n\nw6\n"))
+    # runs of ':' / ';' lines in which an entry repeats (nodes compare by content: a pass that looks an entry up by
+    # equality finds the earlier one)
+    out.append(("repeated_entries_in_a_run_of_indented_lines", "w1\n:w2\n:w3\n:w2\n:w4\n\nw5\n"))
+    out.append(("repeated_entries_in_a_run_of_indented_lines", "w1\n:w2 w3\n:w2 w3\n:w4\n:w2 w3\n:w5\n"))
+    out.append(("repeated_terms_in_a_definition_list", ";w1\n:w2 w3\n;w1\n:w4 w5\n\nw6\n"))
+    out.append(("repeated_terms_in_a_definition_list", ";w1\n:w2\n;w3\n:w2\n;w1\n:w4\n"))
+    # a box table (one cell) around a table, with and without a caption; around text
+    inner = "{|\n|-\n| w3 || w4\n|-\n| w5 || w6\n|}"
+    out.append(("captioned_box_around_a_table", "w0\n\n{|\n|+ w1 w2\n|-\n|\n" + inner + "\n|}\n\nw7\n"))
+    out.append(("box_around_a_table", "w0\n\n{|\n|-\n|\n" + inner + "\n|}\n\nw7\n"))
+    out.append(("captioned_box_around_a_table", "{|\n|+ w1 w2\n|-\n|\nw8 w9\n\n" + inner + "\n|}\n"))
+    out.append(("captioned_table_in_a_box", "{|\n|-\n|\n{|\n|+ w1 w2\n|-\n| w3 || w4\n|-\n| w5 || w6\n|}\n|}\n"))
     return out
 
 
@@ -76,7 +91,8 @@ def _check(text, seed):
                 n = 0
                 for x in t.get_all_children():
                     if x.__class__.__name__ == "Table":
-                        rows = [r for r in x.children if r.__class__.__name__ == "Row"]
+                        # (rows without any content are removed as documented: they do not count)
+                        rows = [r for r in x.children if r.__class__.__name__ == "Row" and any(c.children for c in r.children)]
                         if len(rows) >= 2 and max((len([c for c in r.children if c.__class__.__name__ == "Cell"]) for r in rows), default=0) >= 2:
                             n += 1
                 return n
